@@ -513,9 +513,60 @@ func DiscoverBus(p *Prog) *BusRoles {
 				if PkgOf(sc) != PkgBus || sc.Parent() != nil {
 					continue
 				}
-				for _, g := range reachFuncs(p, sc, PkgBus) {
+				tree := reachFuncs(p, sc, PkgBus)
+				for _, g := range tree {
 					if hasAppend(g) {
 						r.PersistFn = sc
+					}
+				}
+				// a pipeline stage that merely calls the persist function is not it: descend to
+				// the deepest function whose call tree still contains the append, the
+				// marshalling of the record and the persistence error handler
+				if r.PersistFn == sc {
+					has := func(root *ssa.Function) (app, marsh, errh bool) {
+						for _, g := range reachFuncs(p, root, PkgBus) {
+							if hasAppend(g) {
+								app = true
+							}
+							for _, b := range g.Blocks {
+								for _, in := range b.Instrs {
+									if call, ok := in.(*ssa.Call); ok && calleeName(call.Common()) == "encoding/json.Marshal" {
+										marsh = true
+									}
+									if ld, ok := in.(*ssa.UnOp); ok {
+										if tn, fld, _, ok := fieldLoad(ld); ok && tn == "EventBus" && fld == r.BusPersistErrH {
+											errh = true
+										}
+									}
+								}
+							}
+						}
+						return
+					}
+					for changed := true; changed; {
+						changed = false
+						for _, b := range r.PersistFn.Blocks {
+							for _, in := range b.Instrs {
+								ci, ok := in.(ssa.CallInstruction)
+								if !ok {
+									continue
+								}
+								c2 := ci.Common().StaticCallee()
+								if c2 == nil {
+									continue
+								}
+								if o := c2.Origin(); o != nil {
+									c2 = o
+								}
+								if PkgOf(c2) != PkgBus || c2.Parent() != nil || c2 == r.PersistFn {
+									continue
+								}
+								if a, m, h := has(c2); a && m && h {
+									r.PersistFn = c2
+									changed = true
+								}
+							}
+						}
 					}
 				}
 			}
@@ -562,6 +613,52 @@ func DiscoverBus(p *Prog) *BusRoles {
 						}
 					}
 				}
+			}
+		}
+	}
+	// … and helpers that are handed the registration itself and evaluate its filter
+	// (passesFilter(h, event) bool)
+	if r.RegT != nil && r.RegFilter != "" {
+		for _, f := range p.FuncsIn(PkgBus) {
+			if f.Parent() != nil || f == r.PublishFn {
+				continue
+			}
+			if rs := f.Signature.Results(); rs.Len() != 1 || !isBasicKind(rs.At(0).Type(), types.Bool) {
+				continue
+			}
+			var regParam *ssa.Parameter
+			for _, prm := range f.Params {
+				if pt, ok := prm.Type().Underlying().(*types.Pointer); ok && types.Identical(pt.Elem(), r.RegT) {
+					regParam = prm
+				}
+			}
+			if regParam == nil {
+				continue
+			}
+			callsFilter := false
+			for _, b := range f.Blocks {
+				for _, in := range b.Instrs {
+					call, ok := in.(*ssa.Call)
+					if !ok {
+						continue
+					}
+					v := call.Common().Value
+					if x, ok := throughAssert(v); ok {
+						v = x
+					}
+					if isDynamicCall(call.Common()) {
+						if tn, fld, base, ok := fieldLoad(v); ok && tn == r.RegT.Obj().Name() && fld == r.RegFilter && stripConv(base) == ssa.Value(regParam) {
+							callsFilter = true
+						}
+					}
+					// or hands the filter to the reflective fallback
+					if sc := call.Common().StaticCallee(); sc != nil && r.FilterHelpers[sc] {
+						callsFilter = true
+					}
+				}
+			}
+			if callsFilter {
+				r.FilterHelpers[f] = true
 			}
 		}
 	}
